@@ -268,19 +268,17 @@ default `base_path`, no `base_url`, no `root_id`, no registered ids -/
 def resolveRef (root : List Str) (r : Str) : Res :=
   let rootJ := joinWith ['/'] root
   if r = ['#'] then .ok (rootJ ++ ['#'])
-  else match r with
-    | [] => .raised
-    | '#' :: rest =>
-      match rest with
-      | '/' :: _ => if isUrl rootJ then .unmodelled else .ok (rootJ ++ r)
-      | _ => .raised
-    | _ =>
-      if isUrl r then .unmodelled
+  else match r.head? with
+    | none => .raised                              -- `joined_path[0]` on the empty string
+    | some c =>
+      if c = '#' then
+        if r.tail.head? = some '/' then
+          (if isUrl rootJ then .unmodelled else .ok (rootJ ++ r))
+        else .raised                               -- `ID_PATTERN`: anchor looked up in the (empty) id table
       else
-        let (file, obj) := splitHash r
-        if plainRel file then
-          .ok (file ++ ['#'] ++ obj.getD [])
-        else .unmodelled
+        -- relative file reference (a URL is never `plainRel`: it contains an empty segment)
+        let fo := splitHash r
+        if plainRel fo.1 then .ok (fo.1 ++ ['#'] ++ fo.2.getD []) else .unmodelled
 
 /-- argument of `get` / `delete` / `resolve_ref`: a string or a sequence (joined first) -/
 inductive RefArg where
